@@ -32,8 +32,30 @@ ENTRIES = [
     ("rtcpPtLo", C, r"let is_rtcp = packet\.len\(\) >= 2 && \((\d+)\.\.=\d+\)\.contains\(&packet\[1\]\)", "RTCP PT lo"),
     ("rtcpPtHi", C, r"let is_rtcp = packet\.len\(\) >= 2 && \(\d+\.\.=(\d+)\)\.contains\(&packet\[1\]\)", "RTCP PT hi (incl)"),
     ("latchMinRtpLen", C, r"!self\.rtp_latched\.load\(Ordering::Relaxed\) && packet\.len\(\) >= (\d+)", "min RTP len for latching"),
-    ("probationRule2MinTotal", C, r"winner = if total >= (\d+) \{", "rule 2: min total packets"),
+    ("probationRule2MinTotal", C, r"let run_winner = if total >= (\d+) \{", "rule 2: min total packets"),
     ("probationRule2MinConsecutive", C, r"\.find\(\|c\| c\.consecutive_count >= (\d+)\)", "rule 2: min consecutive"),
+    # ---- C18 / packet layout read by the latching arm, counter widths
+    ("latchRtcpMinLen", C, r"let is_rtcp = packet\.len\(\) >= (\d+) &&", "min length for the RTCP PT test"),
+    ("latchRtcpPtOff", C, r"let is_rtcp = packet\.len\(\) >= \d+ && \(\d+\.\.=\d+\)\.contains\(&packet\[(\d+)\]\)", "offset of the RTCP packet type byte"),
+    ("latchSsrcOff", C, r"let pkt_ssrc =\s*u32::from_be_bytes\(\[packet\[(\d+)\], packet\[\d+\], packet\[\d+\], packet\[\d+\]\]\)", "SSRC offset (4 bytes, big endian)"),
+    ("latchSsrcEnd", C, r"let pkt_ssrc =\s*u32::from_be_bytes\(\[packet\[\d+\], packet\[\d+\], packet\[\d+\], packet\[(\d+)\]\]\)", "last SSRC byte"),
+    ("latchSeqOff", C, r"let seq = u16::from_be_bytes\(\[packet\[(\d+)\], packet\[\d+\]\]\)", "sequence number offset (2 bytes)"),
+    ("latchSeqEnd", C, r"let seq = u16::from_be_bytes\(\[packet\[\d+\], packet\[(\d+)\]\]\)", "last sequence number byte"),
+    ("latchTsOff", C, r"let ts = u32::from_be_bytes\(\[packet\[(\d+)\], packet\[\d+\], packet\[\d+\], packet\[\d+\]\]\)", "timestamp offset (4 bytes)"),
+    ("latchTsEnd", C, r"let ts = u32::from_be_bytes\(\[packet\[\d+\], packet\[\d+\], packet\[\d+\], packet\[(\d+)\]\]\)", "last timestamp byte"),
+    ("latchMarkerOff", C, r"let marker = \(packet\[(\d+)\] & 0x[0-9a-fA-F]+\) != 0;", "offset of the marker byte"),
+    ("latchMarkerMask", C, r"let marker = \(packet\[\d+\] & (0x[0-9a-fA-F]+)\) != 0;", "marker bit mask"),
+    # ---- C18 / the documented rules (doc comment of RtpCandidateState): order and thresholds as written there
+    ("docRuleMarkerIdx", C, r"/// (\d+)\. \*\*Marker flush\*\*", "position of the marker rule in the doc comment"),
+    ("docRuleRunIdx", C, r"/// (\d+)\. \*\*Consecutive dominance\*\*", "position of the run rule in the doc comment"),
+    ("docRuleTimeoutIdx", C, r"/// (\d+)\. \*\*Timeout fallback\*\*", "position of the timeout rule in the doc comment"),
+    ("docRule2MinConsecutive", C, r"\*\*Consecutive dominance\*\*: a candidate with `consecutive_count >= (\d+)`", "doc comment: run threshold"),
+    ("docRule2MinTotal", C, r"that also has accumulated `>= (\d+)` total packets", "doc comment: total threshold of rule 2"),
+    ("probTotalBits", C, r"struct RtpProbationState \{[^}]*?total_packets: u(\d+),", "width of total_packets"),
+    ("probMaxBits", C, r"struct RtpProbationState \{[^}]*?max_packets: u(\d+),", "width of max_packets"),
+    ("candCountBits", C, r"struct RtpCandidateState \{[^}]*?packet_count: u(\d+),", "width of packet_count"),
+    ("candConsecBits", C, r"struct RtpCandidateState \{[^}]*?consecutive_count: u(\d+),", "width of consecutive_count"),
+    ("candSeqBits", C, r"struct RtpCandidateState \{[^}]*?first_seq: u(\d+),", "width of first_seq / last_seq"),
 ]
 
 def load_extra():
